@@ -64,9 +64,11 @@ func (s *Sink) add(rule, key, pos, status, detail string, nontrivial bool) {
 		NonTrivial: nontrivial, Config: s.config})
 }
 
-func (s *Sink) OK(rule, key, pos, detail string)      { s.add(rule, key, pos, stDischarged, detail, true) }
-func (s *Sink) Trivial(rule, key, pos, detail string) { s.add(rule, key, pos, stDischarged, detail, false) }
-func (s *Sink) Bad(rule, key, pos, detail string)     { s.add(rule, key, pos, stViolated, detail, true) }
+func (s *Sink) OK(rule, key, pos, detail string) { s.add(rule, key, pos, stDischarged, detail, true) }
+func (s *Sink) Trivial(rule, key, pos, detail string) {
+	s.add(rule, key, pos, stDischarged, detail, false)
+}
+func (s *Sink) Bad(rule, key, pos, detail string) { s.add(rule, key, pos, stViolated, detail, true) }
 func (s *Sink) Undecided(rule, key, pos, detail string) {
 	s.add(rule, key, pos, stUndecided, detail, true)
 }
@@ -288,13 +290,13 @@ func conclude(verifDir, root, tier string, seed int64, s *Sink, st runStats, spe
 		"checker_cmd":         fmt.Sprintf("rdcheck check -property %s -tier %s -root %s", s.prop, tier, root),
 		"trusted_base": []string{"go/types and go/ssa of golang.org/x/tools v0.29.0", "VTA call graph (over-approximation of dynamic calls)",
 			"the lock-class abstraction and the frozen guarded-by / role tables in the checker (DESIGN.md §3)"},
-		"build_configs":            st.Configs,
-		"packages_loaded":          st.Packages,
-		"source_functions":         st.Functions,
-		"callgraph_edges":          st.CGEdges,
-		"exhaustive":               true,
-		"stale_known_findings":     stale,
-		"notes":                    s.notes,
+		"build_configs":        st.Configs,
+		"packages_loaded":      st.Packages,
+		"source_functions":     st.Functions,
+		"callgraph_edges":      st.CGEdges,
+		"exhaustive":           true,
+		"stale_known_findings": stale,
+		"notes":                s.notes,
 	}
 	if st.SelfTest != nil {
 		cov["selftest"] = st.SelfTest
